@@ -219,3 +219,96 @@ def cmp_fact(E, facts, op, a, b):
         if k is not None:
             return (1 - k) if neg else k
     return None
+
+
+# ------------------------------------------------------------ thin wrappers
+def _plain_arg(v, depth=0):
+    """a wrapper may pass on: its own parameters, references into `self` / its own node / the task
+    context, fields of self, constants - but nothing computed"""
+    if not isinstance(v, tuple) or depth > 6:
+        return False
+    t = v[0]
+    if t in ('param', 'const', 'init', 'curwaker'):
+        return True
+    if t == 'ref':
+        return True
+    if t == 'pin':
+        return _plain_arg(v[1], depth + 1)
+    if t == 'agg' or t == 'tuple':
+        vals = [x for _, x in v[3]] if t == 'agg' else list(v[1])
+        return all(_plain_arg(x, depth + 1) for x in vals)
+    if t == 'field':
+        return _plain_arg(v[1], depth + 1)
+    if t == 'struct':
+        return True
+    return False
+
+
+# the only public operation that is documented to perform two transitions
+ALLOWED_COMBOS = {
+    ('channel::mpmc::if_alloc::shared::GenericReceiver', ('clear', 'close')):
+        'dropping the last mpmc receiver closes the channel and then discards buffered values',
+}
+
+
+def wrapper_discipline(C, R, cfg, state_adts, rule):
+    """The state functions are the atomic transitions every path rule reasons about; this rule keeps
+    the functions AROUND them thin: on every path of every function outside the state layer, each
+    lock acquisition of such a state is followed by exactly ONE call of one of its methods, whose
+    arguments are passed on unchanged (own parameters, own node, context, fields of self)."""
+    F = C.facts(cfg)
+    E = C.engine(cfg)
+    roles = C.roles(cfg)
+    state_adts = set(state_adts)
+    state_fn_adt = {}
+    for sp in state_adts:
+        for m in F.methods_of(sp, inherent_only=False):
+            state_fn_adt[m['path']] = sp
+    owners = set()
+    for sp in state_adts:
+        for o, _f in roles.state_structs[sp]['owners']:
+            owners.add(o)
+    n = 0
+    for fn in F.raw['fns']:
+        if fn['path'] in state_fn_adt or fn['kind'] == 'closure':
+            continue
+        if not any(b['term']['k'] == 'call' and 'fn' in b['term']['func'] and
+                   b['term']['func']['fn']['path'].startswith('lock_api::') and
+                   b['term']['func']['fn']['name'] == 'lock' for b in fn['blocks'] if not b['cleanup']):
+            continue
+        paths = None
+        for path in E.run(fn['path']):
+            if path.exit != 'return':
+                continue
+            own_frame = path.events[0]['frame'] if path.events else None
+            locks = [e for e in path.events if e['k'] == 'lock' and e['frame'] == own_frame]
+            calls = [e for e in path.events if e['k'] == 'call' and e.get('mode') == 'inline'
+                     and e['callee'] in state_fn_adt and e['frame'] == own_frame]
+            if not calls and not locks:
+                continue
+            if not calls:
+                continue   # a lock without a state call of THIS family (another primitive, or a field read: C01.I8)
+            n += 1
+            pc = path_cond(E, path)
+            # mutating transitions on this path (receiver taken by &mut)
+            mut = [c for c in calls if (c.get('argtys') or [''])[0].startswith('&mut')]
+            names = sorted(c['callee'].split('::')[-1] for c in mut)
+            combo_ok = len(mut) <= 1 or (fn.get('impl_adt'), tuple(names)) in ALLOWED_COMBOS
+            if not combo_ok or len(locks) == 0:
+                R.fail(rule, [fn['path'], 'wrapper-not-thin', '+'.join(names)],
+                       '%s performs %d state transitions (%s) on one path: a public operation maps to exactly one '
+                       'transition of the primitive (listed exceptions: %s) [%s]' % (
+                           fn['path'], len(mut), ', '.join(names),
+                           '; '.join('%s: %s' % (k[0].split('::')[-1], '+'.join(k[1])) for k in ALLOWED_COMBOS), pc),
+                       '%s:%s' % (fn['file'], fn['line']), {'trace': trace_summary(path)})
+                continue
+            bad = [(c, a) for c in calls for a in c['args'][1:] if not _plain_arg(a)]
+            if bad:
+                c, a = bad[0]
+                from engine import fmt_val as _fv
+                R.fail(rule, [fn['path'], 'wrapper-alters-argument', c['callee'].split('::')[-1]],
+                       '%s passes a computed value (%s) to %s instead of its own parameter' % (
+                           fn['path'], _fv(a), c['callee']), where(F, c), {'trace': trace_summary(path)})
+            else:
+                R.ok(rule, '%s|one transition per lock, arguments unchanged|%s' % (fn['path'], pc))
+    return n
